@@ -6,9 +6,10 @@ CONSTANTS MaxDepth
 VARIABLES ct, depth, name, audio, place, akind, bkind, dots, call, ph
 
 vars == <<ct, depth, name, audio, place, akind, bkind, dots, call, ph>>
-DirParts == <<"d1", "sub dir", "üni nfd", "x.y">>
+DirParts == <<" 2023-05 ", "sub dir", "üni nfd", "x.y">>
+\* the last two names and the first directory begin / end with a blank (legal; must be stored and relocated verbatim);
 \* the 7th and 8th names are NOT stable under unicode normalisation (decomposed accents e + U+0301, OHM SIGN U+2126)
-Names == <<"a.wav", "with space.wav", "üñí ©.wav", "dots.in.name.wav", "..hidden.wav", "日本.WAV", "été nfd.wav", "Ωhm.wav">>
+Names == <<"a.wav", "with space.wav", "üñí ©.wav", "dots.in.name.wav", "..hidden.wav", "日本.WAV", "été nfd.wav", "Ωhm.wav", " lead.wav", "take 7 ">>
 Sw0 == {"two_clips", "se_other_rec", "has_seq", "rec_owner"}
 Init == /\ ct \in Range(CTypes) /\ depth \in 0..MaxDepth /\ name \in DOMAIN Names
         /\ audio \in {"none", "str", "path"} /\ ph = "in"
